@@ -44,6 +44,7 @@ const (
 
 	sharpByte    = '#'
 	charSlash    = '/'
+	charFirst    = 'f'
 	charDone     = 'C'
 	vectorByte   = 'V'
 	binaryByte   = 'b'
@@ -167,6 +168,19 @@ const (
 		"................................" + // 0xa0
 		"................................" + // 0xc0
 		"................................#" //  0xe0
+
+	// The character after #\ is always part of the character token, even a
+	// delimiter or macro character such as #\( or #\;.
+	//   0123456789abcdef0123456789abcdef
+	charFirstMode = "" +
+		"ffffffffffffffffffffffffffffffff" + // 0x00
+		"ffffffffffffffffffffffffffffffff" + // 0x20
+		"ffffffffffffffffffffffffffffffff" + // 0x40
+		"ffffffffffffffffffffffffffffffff" + // 0x60
+		"ffffffffffffffffffffffffffffffff" + // 0x80
+		"ffffffffffffffffffffffffffffffff" + // 0xa0
+		"ffffffffffffffffffffffffffffffff" + // 0xc0
+		"ffffffffffffffffffffffffffffffff/" //  0xe0
 
 	//   0123456789abcdef0123456789abcdef
 	charMode = "" +
@@ -691,6 +705,12 @@ func (r *reader) read(src []byte) {
 			r.mode = sharpMode
 		case charSlash:
 			r.tokenStart = r.pos + 1
+			r.mode = charFirstMode
+		case charFirst:
+			if b == '\n' {
+				r.line++
+				r.lineStart = r.pos
+			}
 			r.mode = charMode
 		case charDone:
 			r.pushChar(src)
@@ -834,7 +854,7 @@ func (r *reader) read(src []byte) {
 			r.raise("escaped character not terminated")
 		case symbolMode:
 			r.raise("|symbol| not terminated")
-		case charMode:
+		case charMode, charFirstMode:
 			r.pushChar(src)
 		case intMode:
 			r.pushInteger(src)
